@@ -284,10 +284,17 @@ _REUSE = {}
 
 def threshold(rng, cost=None):
     """t > 0 spread over orders of magnitude (t <= 1 for R2)."""
+    u = rng.random()
     if cost == 'r2':
-        if rng.random() < 0.05:
+        if u < 0.05:
             return 1.0                       # the boundary of the stated domain (t <= 1 for R2)
+        if u < 0.07:
+            return 0.0                       # the other boundary: every fit with R2 >= 0 is acceptable
         return float(rng.uniform(0.0, 1.0)) if rng.random() < 0.8 else float(1.0 - 10 ** rng.uniform(-6, -1))
+    if u < 0.02:
+        return 0.0                           # nothing is acceptable (cost < 0 never holds): full refinement
+    if u < 0.04:
+        return float([1.0, 2.0, 10.0][int(rng.integers(0, 3))])   # at / above the largest value the relative metrics can take
     return float(10.0 ** rng.uniform(-4, 0))
 
 
